@@ -6,8 +6,10 @@ import (
 	"fmt"
 	"io"
 	"math/rand"
+	"runtime"
 	"sort"
 	"strings"
+	"sync"
 
 	proto "github.com/kubewharf/kubebrain-client/api/v2rpc"
 
@@ -28,7 +30,7 @@ func init() {
 		Plan: func(tier string) Plan {
 			return Plan{Level: "exploration", NCases: pick(tier, 200, 40000), Batch: 4, CaseTimeout: 60,
 				Rule: "one case = 2000 generated (key, revision) inputs over the alphabet bytes > '$' (empty, 1-byte, 0xff-terminated, all-0xff, prefix-related pairs, pairs differing in the last byte; revisions 0, 1, 2^63, 2^64-1, random) checked for round trip and pairwise order, " +
-					"plus one key set loaded as index+version records into the real memkv engine and 60 raw ranges / prefixes iterated through the computed internal bounds (and through Backend.List for PrefixEnd bounds and raw ranges between stored keys, on memkv, on a TiKV mock pre-split into regions and on a memkv reporting several partitions); every 4th case also compacts nodes configured with the key prefixes \"\" (the default), \"/\", with and without trailing slash, with a doubled slash and relative: exactly the records under the prefix must be reached. " +
+					"plus one key set loaded as index+version records into the real memkv engine and 60 raw ranges / prefixes iterated through the computed internal bounds (and through Backend.List for PrefixEnd bounds and raw ranges between stored keys, on memkv, on a TiKV mock pre-split into regions and on a memkv reporting several partitions); every 4th case runs 8 goroutines x 3000 concurrent round trips of keys of 0-12 bytes; every 4th case also compacts nodes configured with the key prefixes \"\" (the default), \"/\", with and without trailing slash, with a doubled slash and relative: exactly the records under the prefix must be reached. " +
 					"non-trivial = case containing >=1 prefix-related pair, >=1 0xff-terminated key and >=1 extreme revision; distinct by input digest",
 				Assumptions: []string{"keys are drawn from the documented alphabet only (every byte greater than '$')"},
 				MinConcl:    pick(tier, 180, 38000)}
@@ -426,6 +428,15 @@ func runC10(c *harness.Case) {
 		}
 		c.Stat("list_ranges_checked", 1)
 	}
+	// the coder is called from every request goroutine at once: concurrent round trips of short and long keys (encoding
+	// is a pure function; a result must not depend on who else is encoding)
+	if c.Index%4 == 1 {
+		if bad := concurrentRoundTrips(r.Int63(), 8, 3000); bad != "" {
+			c.Violatef("C10 concurrent-round-trip-differs", map[string]interface{}{"first_mismatch": bad}, "with 8 goroutines encoding at the same time: %s", bad)
+			return
+		}
+		c.Stat("concurrent_round_trips", 8*3000)
+	}
 	// the bounds a node computes from its configured key prefix for compaction: whatever the prefix looks like (empty -
 	// the --key-prefix default -, with or without a trailing slash, with a doubled slash, relative), a compaction
 	// must reach exactly the records under it
@@ -495,5 +506,47 @@ func runC10(c *harness.Case) {
 			s = append(s, fmt.Sprintf("%q@%d", ins[i].k, ins[i].r))
 		}
 		c.R.Sample = map[string]interface{}{"inputs": s, "stored_keys": len(all)}
+	}
+}
+
+// concurrentRoundTrips: g goroutines x n encodes of keys of 0..12 bytes (alphabet bytes > '$') with random revisions;
+// returns a description of the first decode(encode(k,r)) != (k,r).
+func concurrentRoundTrips(seed int64, g, n int) string {
+	var wg sync.WaitGroup
+	bad := make(chan string, g)
+	for i := 0; i < g; i++ {
+		wg.Add(1)
+		go func(i int) {
+			defer wg.Done()
+			rr := newRand(seed + int64(i))
+			cd := coder.NewNormalCoder()
+			for j := 0; j < n; j++ {
+				k := make([]byte, rr.Intn(13))
+				for x := range k {
+					k[x] = byte(0x25 + rr.Intn(0xff-0x25+1))
+				}
+				rev := rr.Uint64()
+				if rr.Intn(4) == 0 {
+					rev = 0
+				}
+				enc := cd.EncodeObjectKey(k, rev)
+				runtime.Gosched()
+				raw, got, err := cd.Decode(enc)
+				if err != nil || !bytes.Equal(raw, k) || got != rev {
+					select {
+					case bad <- fmt.Sprintf("Decode(EncodeObjectKey(%q,%d)) = (%q,%d,%v)", k, rev, raw, got, err):
+					default:
+					}
+					return
+				}
+			}
+		}(i)
+	}
+	wg.Wait()
+	select {
+	case b := <-bad:
+		return b
+	default:
+		return ""
 	}
 }
